@@ -76,6 +76,9 @@ func (P *Program) VerifyFunc(ct *Contract, fn *ssa.Function) (res *FuncResult) {
 	res.VC = vc
 	ex := &Exec{P: P, vc: vc, reg: P.reg, top: fn, safetyTag: ct.Safety, hsorts: heapSorts{}, expands: map[string]bool{}, reprCache: map[string]string{}, maxInline: 400}
 	ex.oblPrefix = shortPkg(ct.Pkg) + "." + ct.Target
+	if ct.View != "" {
+		ex.oblPrefix += "@" + ct.View
+	}
 	// representation clauses are expanded for the receiver's own type and for types listed in `expands`
 	if fn.Signature.Recv() != nil {
 		rt := fn.Signature.Recv().Type()
@@ -378,6 +381,27 @@ func (P *Program) VerifyFunc(ct *Contract, fn *ssa.Function) (res *FuncResult) {
 			Goal: not(or(anyReach...)), Canary: true, Desc: "canary: 'ensures false' must be refuted"})
 	}
 	res.Obls = vc.obls
+	if ct.View != "" {
+		// a view proves its own clauses only: the safety, frame and call-site obligations of the body belong to the main contract
+		own := map[string]bool{}
+		for _, cs := range [][]Clause{ct.Ensures, ct.Claims, ct.Lemmas} {
+			for _, c := range cs {
+				own[c.Tag] = true
+			}
+		}
+		for _, is := range ct.Invs {
+			for _, c := range is {
+				own[c.Tag] = true
+			}
+		}
+		var keep []*Obligation
+		for _, o := range res.Obls {
+			if own[o.Tag] || o.IsCover || o.Canary {
+				keep = append(keep, o)
+			}
+		}
+		res.Obls = keep
+	}
 	return res
 }
 
